@@ -442,6 +442,18 @@ func workloads(c *core.Ctx) []sx.Workload {
 	out[len(out)-1].Tail = []string{"persist", "reopen", "more:40", "persist", "reopen", "more:40", "persist", "close"}
 	add("safe-4w-slowtake", 12, 4, true, nil)
 	out[len(out)-1].LockPauseUS = 2500
+	// ScorchDisk!Restart with KeepN = 2 (ScorchDisk_mc_restart.cfg, NewNamesUnused): the newest
+	// segments are emptied by a delete batch and dropped from the root while an older recorded
+	// snapshot still names their (longer) files; the index is opened again and written to
+	out = append(out, sx.Workload{Name: "safe-1w-keep2-emptied-tail-reopen", Writers: 1, Safe: true,
+		KVConfig: map[string]interface{}{"numSnapshotsToKeep": 2, "scorchMergePlanOptions": map[string]interface{}{"FloorSegmentSize": 1}},
+		Batches: []sx.BatchSpec{{W: 1, Puts: []string{"a"}, Dels: []string{}}, {W: 1, Puts: []string{"b", "c", "d"}, Dels: []string{}},
+			{W: 1, Puts: []string{"e", "f", "g", "h"}, Dels: []string{}}, {W: 1, Puts: []string{}, Dels: []string{"b", "c", "d", "e", "f", "g", "h"}}},
+		Tail: []string{"persist", "reopen", "more:1", "persist", "reopen", "more:2", "persist", "close"}})
+	// several in-memory segments per persist round, cut into flush groups of limited size
+	// (ScorchDisk!PMMWrite / PMMCommit: the equivalent snapshot; TraceCrash!EquivIsTheTakenState)
+	add("unsafe-2w-flushgroups", 9, 2, false, map[string]interface{}{"scorchPersisterOptions": map[string]interface{}{
+		"MaxSizeInMemoryMergePerWorker": 1}})
 	if c.Thorough() {
 		add("unsafe-3workers", 8, 2, false, map[string]interface{}{"scorchPersisterOptions": map[string]interface{}{
 			"NumPersisterWorkers": 3, "MaxSizeInMemoryMergePerWorker": 1}})
